@@ -74,7 +74,7 @@ def structured_archive(r, nmembers=None, consistent=0.5):
             if k < 0.3:
                 f.clen = r.choice([0, len(data) + 1, len(data) + 1000, 0xffffffff, 0x7fffffff])
             elif k < 0.6:
-                f.length = r.choice([0, 1, 0xffffffff, 0x80000000, 70000])
+                f.length = r.choice([0, 1, 70000, 300000]) if f.method not in (b"-lh0-", b"-lz4-", b"-pm0-", b"-lhd-") else r.choice([0, 1, 0xffffffff, 0x80000000, 70000])
             elif k < 0.8:
                 data = data[:r.randrange(len(data) + 1)]
         g = f.copy()
